@@ -3,6 +3,7 @@ package keeper
 import (
 	"context"
 
+	modeltypes "github.com/SaoNetwork/sao/x/model/types"
 	"github.com/SaoNetwork/sao/x/sao/types"
 	sdk "github.com/cosmos/cosmos-sdk/types"
 	sdkerrors "github.com/cosmos/cosmos-sdk/types/errors"
@@ -60,6 +61,12 @@ func (k msgServer) Terminate(goCtx context.Context, msg *types.MsgTerminate) (*t
 		if !isValid {
 			return nil, sdkerrors.Wrap(types.ErrorNoPermission, "No permission to delete the model")
 		}
+	}
+
+	if meta.Status != modeltypes.MetaComplete {
+		// the order in flight is not in meta.Orders yet; deleting the model now would
+		// orphan it together with its payment
+		return nil, sdkerrors.Wrapf(modeltypes.ErrInvalidStatus, "data model %s has an order in flight, cancel it first", meta.DataId)
 	}
 
 	shardSet := make(map[uint64]int)
